@@ -67,6 +67,10 @@ func newWorld(r *rand.Rand, o worldOpts) *World {
 	if r.Intn(15) == 0 && !o.NoBig {
 		// a big world now and then: counts beyond small-map sizes, buffer sizes and single digits
 		nrec, nbas, nunk = 12+r.Intn(14), 34+r.Intn(16), 20+r.Intn(20)
+		if r.Intn(3) == 0 {
+			// and now and then very many elements: days whose totals have more than 128 / 256 rows
+			nbas = 130 + r.Intn(160)
+		}
 		o.MaxDays, maxEnts = 25+r.Intn(20), 90
 		wide = true
 		if o.MinDays > o.MaxDays {
